@@ -312,3 +312,7 @@ mod tests {
         h2.join().unwrap();
     }
 }
+
+#[cfg(kani)]
+#[path = "/verif/harness/may/sync_semphore.rs"]
+mod verif_kani;
